@@ -7,9 +7,12 @@ from typing import Any
 from sympy import E, S, Expr, Mod, Mul
 from sympy.matrices.dense import DenseMatrix
 from sympy.printing.latex import LatexPrinter, accepted_latex_functions
+from sympy.printing.precedence import PRECEDENCE
 from sympy.core.function import AppliedUndef
 from sympy.simplify import fraction
 from ..core.symbols.symbols import DimensionSymbol, Function, IndexedSymbol
+from ..core.operations.sum_indexed import IndexedSum
+from ..core.operations.product_indexed import IndexedProduct
 from .miscellaneous import process_function
 
 _between_two_numbers_p = (
@@ -42,6 +45,26 @@ class SymbolLatexPrinter(LatexPrinter):  # type: ignore[misc]
     def __init__(self, settings: Any = None) -> None:
         settings["order"] = "none"
         LatexPrinter.__init__(self, settings)
+
+    def parenthesize(self,
+        item: Any,
+        level: int,
+        is_neg: bool = False,
+        strict: bool = False) -> str:
+        # `IndexedSum` and `IndexedProduct` bind like SymPy's `Sum` and `Product`, i.e. like `Mul`,
+        # so that they are bracketed as operands of factorials and powers.
+        if isinstance(item, (IndexedSum, IndexedProduct)):
+            prec = PRECEDENCE["Mul"]
+            if (is_neg and strict) or prec < level or (not strict and prec <= level):
+                return str(self._add_parens(self._print(item)))
+            return str(self._print(item))
+        return str(super().parenthesize(item, level, is_neg=is_neg, strict=strict))
+
+    def _needs_mul_brackets(self, expr: Expr, first: bool = False, last: bool = False) -> bool:
+        # the summand (factor) of an `IndexedSum` (`IndexedProduct`) extends to the end of the term
+        if not last and isinstance(expr, (IndexedSum, IndexedProduct)):
+            return True
+        return bool(super()._needs_mul_brackets(expr, first=first, last=last))
 
     # pylint: disable-next=invalid-name
     def _print_Symbol(self, expr: Any, style: str = "plain") -> str:
